@@ -1543,6 +1543,94 @@ theorem partsEnts_sound (x : Ctx) (n : Nat) (hn : n ≤ x.nodes.size)
           rw [partEnts_sound x n p hp hn ih a h1 s, ihp b h2 s, evalUpTo_prefix x.nodes x.env n p hp hn]
     · cases h
 
+theorem get_perm (s : Sig) {m1 m2 : SigMap} (h : m1.Perm m2) : get m1 s = get m2 s := by
+  induction h with
+  | nil => rfl
+  | cons x _ ih => obtain ⟨k, v⟩ := x; simp only [get_cons, ih]
+  | swap x y l =>
+    obtain ⟨k1, v1⟩ := x
+    obtain ⟨k2, v2⟩ := y
+    simp only [get_cons]
+    rw [← BitVec.add_assoc, ← BitVec.add_assoc, BitVec.add_comm (if k2 = s then v2 else 0)]
+  | trans _ _ ih1 ih2 => rw [ih1, ih2]
+
+/-- a wire-sum splits along any predicate on its parts -/
+theorem get_flatten_split (l : List Nat) (q : Nat → Bool) (f : Nat → SigMap) (s : Sig) :
+    get ((l.map f).flatten) s =
+      get (((l.filter q).map f).flatten) s + get (((l.filter (fun p => !q p)).map f).flatten) s := by
+  induction l with
+  | nil => simp
+  | cons p l ih =>
+    by_cases hq : q p = true
+    · simp only [List.filter_cons, hq, Bool.not_true, Bool.false_eq_true, if_true, if_false,
+        List.map_cons, List.flatten_cons, get_append, ih, BitVec.add_assoc]
+    · have hq' : q p = false := by simpa using hq
+      simp only [List.filter_cons, hq', Bool.not_false, Bool.false_eq_true, if_true, if_false,
+        List.map_cons, List.flatten_cons, get_append, ih]
+      rw [← BitVec.add_assoc, BitVec.add_comm (get (f p) s), BitVec.add_assoc]
+
+theorem constPairs_sound (nodes : Array CNode) (env : Env) (n : Nat) (hn : n ≤ nodes.size) :
+    ∀ (ps : List Nat) (K : SigMap), constPairs nodes n ps = some K → ∀ s,
+      get ((ps.map (fun p => (evalUpTo nodes env n).getD p [])).flatten) s = get K s := by
+  intro ps
+  induction ps with
+  | nil =>
+    intro K h s
+    simp only [constPairs] at h
+    injection h with h
+    subst h
+    rfl
+  | cons p ps ih =>
+    intro K h s
+    simp only [constPairs] at h
+    split at h
+    · rename_i hp
+      have hps : p < nodes.size := by omega
+      have hnd : nodes[p]? = some nodes[p] := Array.getElem?_eq_getElem hps
+      rw [hnd] at h
+      cases hk : nodes[p] with
+      | const ty v =>
+        rw [hk] at h
+        cases hr : constPairs nodes n ps with
+        | none => simp [hr] at h
+        | some r =>
+          simp only [hr] at h
+          injection h with h
+          subst h
+          simp only [List.map_cons, List.flatten_cons, get_append, ih r hr s]
+          rw [evalUpTo_prefix nodes env n p hp hn, evalNodes_getD nodes env p hps, hk]
+          simp [evalNode]
+      | _ => rw [hk] at h; simp at h
+    · cases h
+
+theorem constMaps_sound (x : Ctx) : ∀ (es : List Nat) (m : SigMap), constMaps x.c x.nodes x.bind es = some m → ∀ s,
+    get (Circuit.sumOuts es x.E) s = get m s := by
+  intro es
+  induction es with
+  | nil =>
+    intro m h s
+    simp only [constMaps] at h
+    injection h with h
+    subst h
+    rfl
+  | cons e es ih =>
+    intro m h s
+    simp only [constMaps] at h
+    cases hk : x.c.kind e with
+    | const me =>
+      rw [hk] at h
+      cases hr : constMaps x.c x.nodes x.bind es with
+      | none => simp [hr] at h
+      | some r =>
+        simp only [hr] at h
+        split at h
+        · rename_i hni
+          injection h with h
+          subst h
+          rw [get_sumOuts_cons, get_append, ih r hr s, x.out_eq e (x.inp_none_of_notInput e hni), hk]
+        · cases h
+    | _ => rw [hk] at h; simp at h
+
 theorem checkMany_sound (x : Ctx) (n : Nat) (hn : n < x.nodes.size) (es : List Nat)
     (hbind : x.bind n = some (.many es))
     (ih : ∀ m, m < n → Holds x.E x.nodes x.env x.bind m)
@@ -1557,12 +1645,30 @@ theorem checkMany_sound (x : Ctx) (n : Nat) (hn : n < x.nodes.size) (es : List N
   | bmerge parts =>
     rw [hk] at h
     simp only at h
-    cases hp : partsEnts x.c x.nodes x.bind n parts with
-    | none => simp [hp] at h
-    | some es' =>
-      simp only [hp] at h
-      rw [← get_sumOuts_perm x.E s (List.isPerm_iff.mp h), partsEnts_sound x n (by omega) ih parts es' hp s]
-      simp [evalNode]
+    unfold mergeOK at h
+    cases hp : partsEnts x.c x.nodes x.bind n (parts.filter (hasEnts x.c x.nodes x.bind)) with
+    | none => rw [hp] at h; cases h
+    | some singles =>
+      rw [hp] at h
+      simp only at h
+      cases hc : constPairs x.nodes n (parts.filter (fun p => !hasEnts x.c x.nodes x.bind p)) with
+      | none => rw [hc] at h; cases h
+      | some K =>
+        rw [hc] at h
+        simp only at h
+        cases hm : constMaps x.c x.nodes x.bind (restOf singles es) with
+        | none => rw [hm] at h; cases h
+        | some mcat =>
+          rw [hm] at h
+          simp only [Bool.and_eq_true] at h
+          obtain ⟨hperm, hes⟩ := h
+          rw [get_sumOuts_perm x.E s (List.isPerm_iff.mp hes), get_sumOuts_append,
+            partsEnts_sound x n (by omega) ih _ singles hp s,
+            constMaps_sound x _ mcat hm s, get_perm s (List.isPerm_iff.mp hperm),
+            ← constPairs_sound x.nodes x.env n (by omega) _ K hc s]
+          simp only [evalNode]
+          exact (get_flatten_split parts (hasEnts x.c x.nodes x.bind)
+            (fun p => (evalUpTo x.nodes x.env n).getD p []) s).symm
   | beach op b k =>
     rw [hk] at h
     simp only [Bool.and_eq_true, decide_eq_true_eq] at h
@@ -1882,5 +1988,71 @@ theorem wiresum_end_to_end (c : Circuit) (nodes : Array CNode) (bind : Nat → O
   have hb' : x.bind n = some (.sum es s) := hb
   rw [hb'] at this
   exact this
+
+/-! ## what the user sees: the anchor wired to a named result (C20) -/
+
+theorem observe_eq_selIn (c : Circuit) (E : Nat → SigMap) (a : Nat) :
+    c.observe E a = selIn RG (c.readR E a) (c.readG E a) := by
+  simp [Circuit.observe, selIn, RG]
+
+/-- an anchor that sees exactly the producer of a scalar result reads that result -/
+theorem observed_scalar_end_to_end (c : Circuit) (nodes : Array CNode) (bind : Nat → Option Bind) (rank : Nat → Nat)
+    (hrank : c.checkRanked rank = true) (hall : checkAll c nodes bind = true)
+    (inp : Inputs) (env : Env) (hinp : InputsOK c inp) (hagree : InputsAgree nodes bind inp env)
+    (T : Nat) (hT : ∀ i, rank i < T) (t : Nat) (ht : T ≤ t)
+    (n e : Nat) (s : Sig) (hn : n < nodes.size) (hb : bind n = some (.ent e s))
+    (a : Nat) (hobs : obsOK c a (.ent e s) = true) :
+    get (c.observe (c.runF inp t) a) s = nodeVal nodes env n := by
+  have hr := Circuit.checkRanked_sound c rank hrank
+  have hE : EmitsOK c (c.runF inp t) := by
+    apply emitsOK_of_fixpoint c inp hinp
+    intro i
+    have h1 := Circuit.settled_stable c inp rank hr T hT t ht
+    have h2 := Circuit.settled_fixpoint c inp rank hr T hT
+    have : c.runF inp t = c.runF inp T := funext h1
+    rw [this]
+    exact h2 i
+  rw [observe_eq_selIn, read_isolated c _ hE a RG s e hobs]
+  exact scalar_end_to_end c nodes bind rank hrank hall inp env hinp hagree T hT t ht n e s hn hb
+
+/-- an anchor that sees exactly the producers of a bundle result reads that bundle: every member with its
+value, nothing else -/
+theorem observed_bundle_end_to_end (c : Circuit) (nodes : Array CNode) (bind : Nat → Option Bind) (rank : Nat → Nat)
+    (hrank : c.checkRanked rank = true) (hall : checkAll c nodes bind = true)
+    (inp : Inputs) (env : Env) (hinp : InputsOK c inp) (hagree : InputsAgree nodes bind inp env)
+    (T : Nat) (hT : ∀ i, rank i < T) (t : Nat) (ht : T ≤ t)
+    (n : Nat) (es : List Nat) (hn : n < nodes.size) (hb : bind n = some (.many es))
+    (a : Nat) (hobs : obsOK c a (.many es) = true) (s : Sig) :
+    get (c.observe (c.runF inp t) a) s = get ((evalNodes nodes env).getD n []) s := by
+  have hr := Circuit.checkRanked_sound c rank hrank
+  have hE : EmitsOK c (c.runF inp t) := by
+    apply emitsOK_of_fixpoint c inp hinp
+    intro i
+    have h1 := Circuit.settled_stable c inp rank hr T hT t ht
+    have h2 := Circuit.settled_fixpoint c inp rank hr T hT
+    have : c.runF inp t = c.runF inp T := funext h1
+    rw [this]
+    exact h2 i
+  rw [observe_eq_selIn, carries_sound c _ hE a RG es hobs s]
+  exact bundle_end_to_end c nodes bind rank hrank hall inp env hinp hagree T hT t ht n es hn hb s
+
+theorem observed_wiresum_end_to_end (c : Circuit) (nodes : Array CNode) (bind : Nat → Option Bind) (rank : Nat → Nat)
+    (hrank : c.checkRanked rank = true) (hall : checkAll c nodes bind = true)
+    (inp : Inputs) (env : Env) (hinp : InputsOK c inp) (hagree : InputsAgree nodes bind inp env)
+    (T : Nat) (hT : ∀ i, rank i < T) (t : Nat) (ht : T ≤ t)
+    (n : Nat) (es : List Nat) (s : Sig) (hn : n < nodes.size) (hb : bind n = some (.sum es s))
+    (a : Nat) (hobs : obsOK c a (.sum es s) = true) :
+    get (c.observe (c.runF inp t) a) s = nodeVal nodes env n := by
+  have hr := Circuit.checkRanked_sound c rank hrank
+  have hE : EmitsOK c (c.runF inp t) := by
+    apply emitsOK_of_fixpoint c inp hinp
+    intro i
+    have h1 := Circuit.settled_stable c inp rank hr T hT t ht
+    have h2 := Circuit.settled_fixpoint c inp rank hr T hT
+    have : c.runF inp t = c.runF inp T := funext h1
+    rw [this]
+    exact h2 i
+  rw [observe_eq_selIn, readsSum_sound c _ hE a RG s es hobs]
+  exact wiresum_end_to_end c nodes bind rank hrank hall inp env hinp hagree T hT t ht n es s hn hb
 
 end Facto
